@@ -721,14 +721,14 @@ pub fn finalize(f: Finalize, rep: &mut Report) -> i32 {
         rep.caps_hit,
         wall
     );
-    if !rep.machinery_errors.is_empty() {
-        for e in &rep.machinery_errors {
-            eprintln!("MACHINERY: {e}");
-        }
-        return 2;
+    for e in &rep.machinery_errors {
+        eprintln!("MACHINERY: {e}");
     }
+    // a replayable violation is a verdict even if some other part of the run broke down
     if unlisted > 0 {
         1
+    } else if !rep.machinery_errors.is_empty() {
+        2
     } else {
         0
     }
